@@ -236,6 +236,78 @@ func subCutRandom() mon.Sub {
 
 // ------------------------------------------------------------ handshakes
 
+// a failing WRITE during the handshake must surface as an error too
+func subHandshakeWriteFault() mon.Sub {
+	return mon.Sub{
+		Name: "handshake-write-fault", Exhaustive: true, Required: true,
+		N:    func(string) int { return 2 * 4 * 3 },
+		Do: func(c *mon.C) {
+			server := c.I%2 == 0
+			wbuf := []int{0, 16, 64, 100}[c.I/2%4]
+			mode := c.I / 8 // 0 error, 1 short write 1 + error, 2 sticky
+			req := gen.BuildReq(c.Rng, map[string]string{"extra": "some"}, []string{"chat"}, nil)
+			// count the destination calls of a healthy run first
+			healthy := func(rec *xport.Rec) error {
+				if server {
+					u := ws.Upgrader{WriteBufferSize: wbuf, Protocol: func([]byte) bool { return true }, Header: ws.HandshakeHeaderString("X-Long: " + strings.Repeat("h", 150) + "\r\n")}
+					_, err := u.Upgrade(xport.RW{Reader: bytes.NewReader(req.Bytes()), Writer: rec})
+					return err
+				}
+				u, _ := url.ParseRequestURI("ws://fault.example/x")
+				d := ws.Dialer{WriteBufferSize: wbuf, Protocols: []string{"chat"}, Header: ws.HandshakeHeaderString("X-Long: " + strings.Repeat("h", 150) + "\r\n")}
+				rw := &cutRW{build: func(reqb []byte) []byte {
+					key := ""
+					for _, l := range strings.Split(string(reqb), "\r\n") {
+						if strings.HasPrefix(l, "Sec-WebSocket-Key: ") {
+							key = strings.TrimPrefix(l, "Sec-WebSocket-Key: ")
+						}
+					}
+					return gen.BuildResp(newRand(1), nil, gen.ReqInfo{Key: key, Protocols: []string{"chat"}}).Head()
+				}, plan: xport.Plan{Kind: "whole"}, off: 1 << 20, endErr: io.EOF}
+				_, _, err := d.Upgrade(failW{rw, rec}, u)
+				return err
+			}
+			rec0 := xport.NewRec()
+			if err := healthy(rec0); err != nil {
+				c.Fail("handshake/healthy-run-failed", "handshake over a healthy transport failed: "+err.Error(), nil)
+				return
+			}
+			for j := 0; j < len(rec0.Calls); j++ {
+				c.Count(1)
+				rec := xport.NewRec()
+				rec.FailAt = j
+				if mode == 1 {
+					rec.ShortN = 1
+				}
+				rec.Sticky = mode == 2
+				err := healthy(rec)
+				if err == nil {
+					c.Fail(fmt.Sprintf("handshake/write-fault-swallowed/%s", map[bool]string{true: "upgrader", false: "dialer"}[server]),
+						fmt.Sprintf("destination write call %d of %d failed during the handshake but nil was returned", j, len(rec0.Calls)), map[string]interface{}{"server": server, "write_buffer": wbuf, "mode": mode, "failing_call": j})
+					return
+				}
+			}
+			c.Classf("server=%v wbuf=%d mode=%d calls=%d", server, wbuf, mode, len(rec0.Calls))
+			c.Sample(map[string]interface{}{"server": server, "write_buffer": wbuf, "destination_calls": len(rec0.Calls), "mode": mode})
+		},
+	}
+}
+
+// failW routes reads to rw and writes to both rw (so that the scripted peer sees the request) and rec (which may fail).
+type failW struct {
+	rw  *cutRW
+	rec *xport.Rec
+}
+
+func (f failW) Read(p []byte) (int, error) { return f.rw.Read(p) }
+func (f failW) Write(p []byte) (int, error) {
+	n, err := f.rec.Write(p)
+	if n > 0 {
+		f.rw.Write(p[:n])
+	}
+	return n, err
+}
+
 func subHandshakeCut() mon.Sub {
 	return mon.Sub{
 		Name: "handshake-cut", Required: true,
@@ -472,8 +544,8 @@ func main() {
 		Property: "C16",
 		Level:    "fault_enumeration",
 		Rule: "fault enumeration: (a) every valid complete frame stream up to depth 3 (quick) / 4 (thorough) on both sides, cut at EVERY byte offset in three flavours (EOF, final data together with EOF, injected transport error) through Reader, Reader+ControlFrameHandler, Reader+Discard, ReadMessage, ReadData, Read*Text, Read*Binary and NextReader, plus random longer streams at 40 random offsets; oracle = the uncut run of the same stream (events must be a prefix), the message-boundary set of the reference reassembly (clean EOF only there), control payloads never shortened (callbacks, collected messages, pongs on the wire); " +
-			"(b) upgrade requests and 101 responses cut at every offset of the head in the three flavours: error, no 101, no buffer; (c) every writer history of depth 2 (quick) / 3 (thorough) over the 30-op alphabet + Flush for 4 configurations with the destination failing at every call index as plain error or short write (0/1/3 bytes) + error, then 7 follow-up operations: each returns the error (ReadFrom's return is left open) and the destination sees no further call. distinct = (entry, cut frame kind/position, flavour, boundary, stream shape) / (config, failing call, mode, history).",
+			"(b) upgrade requests and 101 responses cut at every offset of the head in the three flavours: error, no 101, no buffer; every destination write call of the handshake (request or response, write buffers 16..default) failing as error / short write / sticky: error returned; (c) every writer history of depth 2 (quick) / 3 (thorough) over the 30-op alphabet + Flush for 4 configurations with the destination failing at every call index as plain error or short write (0/1/3 bytes) + error, then 7 follow-up operations: each returns the error (ReadFrom's return is left open) and the destination sees no further call. distinct = (entry, cut frame kind/position, flavour, boundary, stream shape) / (config, failing call, mode, history).",
 		Assumptions: []string{"the uncut run itself is checked by C04", "ReadFrom's return value after a failure is OPEN (the statement names writes and flushes); 'no further bytes' is enforced for it too"},
-		Subs:        []mon.Sub{subCutEnum(), subCutRandom(), subHandshakeCut(), subWriterFail()},
+		Subs:        []mon.Sub{subCutEnum(), subCutRandom(), subHandshakeCut(), subHandshakeWriteFault(), subWriterFail()},
 	})
 }
